@@ -8,9 +8,12 @@ import (
 	"math"
 	"math/rand"
 	"os"
+	"runtime"
 	"runtime/debug"
+	"strconv"
 	"strings"
 	"sync"
+	"syscall"
 	"testing"
 	"time"
 
@@ -27,6 +30,7 @@ const (
 	hardLimit = 30 * time.Second
 	caseBudget = 10 * time.Second // once a case has used this much, its remaining calls are skipped (counted)
 	bigHardLimit = 150 * time.Second // documents > 4 KB: only "does not hang"
+	idleLimit    = 10 * time.Minute  // a call that does not return although it consumes no CPU
 	smallDoc  = 4096
 )
 
@@ -45,8 +49,27 @@ type runner struct {
 	current string
 	started time.Time
 	began   time.Time
+	tid     int           // OS thread the case runs on (locked), for CPU-time accounting that does not depend on machine load
+	cpu0    time.Duration // thread CPU time when the current call started
 	slowest time.Duration
 	slowAt  string
+}
+
+// threadCPU reads the CPU time (user+system) a thread of this process has consumed, from /proc
+func threadCPU(tid int) time.Duration {
+	b, err := os.ReadFile(fmt.Sprintf("/proc/self/task/%d/stat", tid))
+	if err != nil {
+		return 0
+	}
+	// fields after the command name in parentheses; utime and stime are the 12th and 13th after it
+	i := strings.LastIndexByte(string(b), ')')
+	f := strings.Fields(string(b[i+1:]))
+	if len(f) < 13 {
+		return 0
+	}
+	ut, _ := strconv.ParseInt(f[11], 10, 64)
+	st, _ := strconv.ParseInt(f[12], 10, 64)
+	return time.Duration(ut+st) * (time.Second / 100) // USER_HZ = 100
 }
 
 func (x *runner) call(name string, f func()) {
@@ -55,32 +78,38 @@ func (x *runner) call(name string, f func()) {
 		return
 	}
 	x.mu.Lock()
-	outer, outerStart := x.current, x.started
+	outer, outerStart, outerCPU := x.current, x.started, x.cpu0
 	x.current = name
 	x.started = time.Now()
-	start := x.started
+	x.cpu0 = threadCPU(x.tid)
+	cpuStart := x.cpu0
 	x.mu.Unlock()
 	f()
 	x.mu.Lock()
-	if el := time.Since(start); el > x.slowest && !strings.HasPrefix(name, "New") {
+	// CPU time of the calling thread: what the call itself computed, whatever else the machine is doing
+	if el := threadCPU(x.tid) - cpuStart; el > x.slowest && !strings.HasPrefix(name, "New") {
 		x.slowest, x.slowAt = el, name
 	}
 	// nested calls (constructor wrappers): give the outer call a fresh allowance
 	x.current = outer
 	if !outerStart.IsZero() {
 		x.started = time.Now()
+		x.cpu0 = threadCPU(x.tid)
+	} else {
+		x.cpu0 = outerCPU
 	}
 	x.mu.Unlock()
 	x.c.Count("calls", 1)
 }
 
-func (x *runner) snapshot() (string, time.Duration) {
+// snapshot: the call in progress, its CPU time so far and its wall-clock time so far
+func (x *runner) snapshot() (string, time.Duration, time.Duration) {
 	x.mu.Lock()
 	defer x.mu.Unlock()
-	if x.started.IsZero() {
-		return x.current, 0
+	if x.started.IsZero() || x.tid == 0 {
+		return x.current, 0, 0
 	}
-	return x.current, time.Since(x.started)
+	return x.current, threadCPU(x.tid) - x.cpu0, time.Since(x.started)
 }
 
 func exerciseTangible(x *runner, t pub.Tangible, widths []int, depth int) {
@@ -166,6 +195,11 @@ func exerciseAny(x *runner, v any, widths []int) {
 func guarded(c *ev.Ctx, x *runner, body func()) {
 	done := make(chan string, 1)
 	go func() {
+		// the case runs on one OS thread of its own, so that its CPU time can be read from /proc
+		runtime.LockOSThread()
+		x.mu.Lock()
+		x.tid = syscall.Gettid()
+		x.mu.Unlock()
 		defer func() {
 			if r := recover(); r != nil {
 				stack := string(debug.Stack())
@@ -189,16 +223,18 @@ wait:
 			if res != "" {
 				parts := strings.SplitN(res, "\x00", 2)
 				d := x.d
-				d.Call, _ = x.snapshot()
+				d.Call, _, _ = x.snapshot()
 				c.Violation("crash:"+parts[0], parts[1]+"\nclass "+x.d.Class+", document: "+ev.Trunc(x.d.Doc, 1200), d)
 			}
 			break wait
 		case <-tick.C:
-			// the watchdog is per call: a single public method that does not return
-			if name, running := x.snapshot(); running > limit {
+			// the watchdog is per call: a single public method that does not return. It is judged on the CPU time the
+			// call has consumed (a loaded machine must not turn a 5 s render into a "hang"); a call that sits idle
+			// (blocked, not computing) is caught by a generous wall-clock limit
+			if name, cpu, wall := x.snapshot(); cpu > limit || wall > idleLimit {
 				d := x.d
 				d.Call = name
-				c.Abandon("hang:"+classOf(x.d.Class), fmt.Sprintf("%s did not return within %v (document of %d bytes, class %s): %s", name, limit, x.d.Bytes, x.d.Class, ev.Trunc(x.d.Doc, 1200)), d)
+				c.Abandon("hang:"+classOf(x.d.Class), fmt.Sprintf("%s did not return after %v of CPU time / %v of wall-clock time (document of %d bytes, class %s): %s", name, cpu.Round(time.Millisecond), wall.Round(time.Millisecond), x.d.Bytes, x.d.Class, ev.Trunc(x.d.Doc, 1200)), d)
 			}
 		}
 	}
